@@ -52,12 +52,12 @@ fn any_vm<'a>(cur: &'a [u8]) -> (EbpfVmMbuff<'a>, u8) {
     let vm = EbpfVmMbuff {
         prog: if has_prog { Some(cur) } else { None },
         verifier: pick_verifier(vk),
-        jit: if kani::any() { Some(JitMemory { from: any_tag(), use_mbuff: kani::any(), update_data_ptr: kani::any(), _p: core::marker::PhantomData }) } else { None },
+        jit: if kani::any() { Some(JitMemory { from: any_tag(), helpers_ver: kani::any(), use_mbuff: kani::any(), update_data_ptr: kani::any(), _p: core::marker::PhantomData }) } else { None },
         #[cfg(not(feature = "std"))]
         custom_exec_memory: if kani::any() { Some(unsafe { &mut EXEC_MEM[..] }) } else { None },
         #[cfg(feature = "cranelift")]
-        cranelift_prog: if kani::any() { Some(CraneliftProgram { from: any_tag() }) } else { None },
-        helpers: lib::HashMap::new(),
+        cranelift_prog: if kani::any() { Some(CraneliftProgram { from: any_tag(), helpers_ver: kani::any() }) } else { None },
+        helpers: { let mut h = lib::HashMap::new(); h.ver = kani::any(); h },
         allowed_memory: lib::HashSet::new(),
         stack_usage: if kani::any() { Some(StackUsage { from: any_tag(), with_calc: kani::any() }) } else { None },
         stack_verifier: StackVerifier { calc: kani::any() },
@@ -161,6 +161,7 @@ fn mbuff_jit_compile() {
             assert!(before.prog.is_some(), "ensures: compiling with no program loaded is an error");
             assert!(view(&vm).jit == before.prog && inv(&vm, vk), "ensures: the compiled code is compiled from the loaded program");
             assert!(matches!(&vm.jit, Some(j) if j.use_mbuff && !j.update_data_ptr), "ensures: metadata VM: r1 = mbuff, buffer not written by the prologue");
+            assert!(matches!(&vm.jit, Some(j) if j.helpers_ver == vm.helpers.ver), "ensures: an explicit compile always compiles against the helpers registered now (C10: results depend on the registered helpers)");
         }
         Err(_) => assert!(view(&vm) == before, "ensures: a failed jit_compile changes nothing"),
     }
@@ -177,6 +178,7 @@ fn mbuff_cranelift_compile() {
         Ok(()) => {
             assert!(before.prog.is_some(), "ensures: compiling with no program loaded is an error");
             assert!(view(&vm).clif == before.prog && inv(&vm, vk), "ensures: the Cranelift artefact is compiled from the loaded program");
+            assert!(matches!(&vm.cranelift_prog, Some(j) if j.helpers_ver == vm.helpers.ver), "ensures: an explicit compile always compiles against the helpers registered now (C10: results depend on the registered helpers)");
         }
         Err(_) => assert!(view(&vm) == before, "ensures: a failed cranelift_compile changes nothing"),
     }
@@ -247,9 +249,14 @@ fn any_fixed<'a>(cur: &'a [u8]) -> (EbpfVmFixedMbuff<'a>, u8) {
     let (parent, vk) = any_vm(cur);
     let (d, e): (usize, usize) = (kani::any(), kani::any());
     kani::assume(d <= 120 && e <= 120); // BOUNDED
-    let buffer = std::vec![0u8; buff_len(d, e)];
+    let mut buffer = std::vec![0u8; buff_len(d, e)];
+    // earlier executions (and earlier programs) may have left anything in the buffer
+    let mut k = 0;
+    while k < buffer.len() { buffer[k] = kani::any(); k += 1; }
     (EbpfVmFixedMbuff { parent, mbuff: MetaBuff { data_offset: d, data_end_offset: e, buffer } }, vk)
 }
+fn all_zero(b: &[u8]) -> bool { let mut ok = true; let mut k = 0; while k < b.len() { if b[k] != 0 { ok = false; } k += 1; } ok }
+fn same_bytes(a: &[u8], b: &[u8]) -> bool { if a.len() != b.len() { return false; } let mut ok = true; let mut k = 0; while k < a.len() { if a[k] != b[k] { ok = false; } k += 1; } ok }
 fn fixed_view(vm: &EbpfVmFixedMbuff) -> (View, usize, usize, usize) { (view(&vm.parent), vm.mbuff.data_offset, vm.mbuff.data_end_offset, vm.mbuff.buffer.len()) }
 fn fixed_inv(vm: &EbpfVmFixedMbuff, vk: u8) -> bool { inv(&vm.parent, vk) && vm.mbuff.buffer.len() == buff_len(vm.mbuff.data_offset, vm.mbuff.data_end_offset) }
 
@@ -261,6 +268,7 @@ fn bounded_fixed_new() {
     kani::assume(d <= 120 && e <= 120);
     if let Ok(vm) = EbpfVmFixedMbuff::new(Some(&p), d, e) {
         assert!(fixed_inv(&vm, 0) && vm.mbuff.data_offset == d && vm.mbuff.data_end_offset == e, "ensures: buffer sized max(offsets)+8, offsets recorded, I holds");
+        assert!(all_zero(&vm.mbuff.buffer), "ensures: a new fixed-metadata VM starts with a zeroed buffer");
     }
 }
 
@@ -271,12 +279,20 @@ fn bounded_fixed_set_program() {
     let (mut vm, vk) = any_fixed(&p1);
     kani::assume(fixed_inv(&vm, vk));
     let before = fixed_view(&vm);
+    let before_buf = vm.mbuff.buffer.clone();
     let (d, e): (usize, usize) = (kani::any(), kani::any());
     kani::assume(d <= 120 && e <= 120);
     match vm.set_program(&p2, d, e) {
-        Ok(()) => assert!(fixed_inv(&vm, vk) && vm.parent.prog.map(tag) == Some(tag(&p2)) && vm.mbuff.data_offset == d && vm.mbuff.data_end_offset == e,
-                          "ensures: program and offsets replaced together, I preserved"),
-        Err(_) => assert!(fixed_view(&vm) == before, "ensures: a failed set_program leaves program, offsets and buffer exactly as before"),
+        Ok(()) => {
+            assert!(fixed_inv(&vm, vk) && vm.parent.prog.map(tag) == Some(tag(&p2)) && vm.mbuff.data_offset == d && vm.mbuff.data_end_offset == e,
+                    "ensures: program and offsets replaced together, I preserved");
+            // C10: what the new program sees does not depend on executions before the reload
+            assert!(all_zero(&vm.mbuff.buffer), "ensures: a successful set_program hands the new program a zeroed buffer (nothing of earlier executions survives)");
+        }
+        Err(_) => {
+            assert!(fixed_view(&vm) == before, "ensures: a failed set_program leaves program, offsets and buffer exactly as before");
+            assert!(same_bytes(&vm.mbuff.buffer, &before_buf), "ensures: a failed set_program leaves the buffer contents as before");
+        }
     }
 }
 
@@ -385,6 +401,11 @@ fn raw_wrappers() {
     let before = view(&vm.parent);
     if vm.jit_compile().is_ok() {
         assert!(matches!(&vm.parent.jit, Some(j) if !j.use_mbuff && !j.update_data_ptr && Some(j.from) == before.prog), "ensures: raw VM compiles with r1 = mem");
+        assert!(matches!(&vm.parent.jit, Some(j) if j.helpers_ver == vm.parent.helpers.ver), "ensures: an explicit compile always compiles against the helpers registered now (C10: results depend on the registered helpers)");
+    }
+    #[cfg(feature = "cranelift")]
+    if vm.cranelift_compile().is_ok() {
+        assert!(matches!(&vm.parent.cranelift_prog, Some(j) if Some(j.from) == before.prog && j.helpers_ver == vm.parent.helpers.ver), "ensures: raw VM: the Cranelift artefact is compiled from the loaded program against the helpers registered now");
     }
 }
 
@@ -393,7 +414,13 @@ fn nodata_wrappers() {
     let p1: [u8; 8] = kani::any();
     let (parent, vk) = any_vm(&p1);
     kani::assume(inv(&parent, vk));
-    let vm = EbpfVmNoData { parent: EbpfVmRaw { parent } };
+    let mut vm = EbpfVmNoData { parent: EbpfVmRaw { parent } };
+    if kani::any() {
+        let before = view(&vm.parent.parent);
+        if vm.jit_compile().is_ok() {
+            assert!(matches!(&vm.parent.parent.jit, Some(j) if Some(j.from) == before.prog && j.helpers_ver == vm.parent.parent.helpers.ver), "ensures: no-data VM: an explicit compile compiles the loaded program against the helpers registered now");
+        }
+    }
     reset();
     let _ = vm.execute_program();
     let c = unsafe { INTERP_LAST }.unwrap();
